@@ -4,6 +4,7 @@
 package engine
 
 import (
+	"go/ast"
 	"crypto/sha256"
 	"encoding/hex"
 	"encoding/json"
@@ -126,6 +127,7 @@ type Ctx struct {
 	Samples     []any
 	thoroughRun bool
 	cg          *callgraph.Graph
+	synIndex    map[ast.Node]*ssa.Function
 }
 
 type undecided struct{ reason string }
